@@ -392,6 +392,7 @@ type obs struct {
 	fwdStat   string
 	fwdIsConn bool // the forwarder returned the shared statConnClosed object
 	timeout   bool
+	barrier   string // why a barrier call failed
 }
 
 func (o *obs) val(push bool) string {
@@ -464,15 +465,20 @@ func doRequest(sess erpc.Session, c *reqCase, o *obs) {
 	}
 }
 
-func syncCall(sess erpc.Session, method string) bool {
+// syncCall is a barrier: an empty call of a method that always answers OK. It returns "" or
+// what went wrong.
+func syncCall(sess erpc.Session, method string) string {
 	var r []byte
-	done := make(chan bool, 1)
-	go func() { done <- sess.Call(method, []byte{}, &r).Status().OK() }()
+	done := make(chan *erpc.Status, 1)
+	go func() { done <- sess.Call(method, []byte{}, &r).Status() }()
 	select {
-	case ok := <-done:
-		return ok
+	case st := <-done:
+		if st.OK() {
+			return ""
+		}
+		return "barrier call " + method + " (its handler always answers OK) returned " + triple(st)
 	case <-time.After(waitLong):
-		return false
+		return "barrier call " + method + " did not complete"
 	}
 }
 
@@ -613,8 +619,8 @@ func (w *world) runDirect(c *reqCase) *obs {
 	w.at("direct: request sent, waiting for the caller to complete")
 	doRequest(w.dsess, c, o)
 	w.at("direct: barrier call on the direct session")
-	if !syncCall(w.dsess, "/b/sync") {
-		o.timeout = true
+	if what := syncCall(w.dsess, "/b/sync"); what != "" {
+		o.timeout, o.barrier = true, "direct session: "+what
 	}
 	w.at("direct: waiting for the backend handler")
 	waitInvoked(c)
@@ -761,8 +767,8 @@ func (w *world) runProxied(c *reqCase) *obs {
 	// everything the proxy forwarded has been written; a barrier call on the forward session
 	// makes the backend's arrival counter final.
 	if c.fail == "none" {
-		if !syncCall(w.fsess, "/b/sync") {
-			o.timeout = true
+		if what := syncCall(w.fsess, "/b/sync"); what != "" {
+			o.timeout, o.barrier = true, "forward session: "+what
 		}
 		waitInvoked(c)
 	} else if c.fail == "during" {
@@ -1329,7 +1335,7 @@ func runC19(cfg *RunCfg) {
 
 		// ---- property oracle on the implementation alone ----
 		if d.timeout || p.timeout {
-			st.Fail(i, "barrier-call-failed", "a barrier call on a healthy session did not return OK, or a call timed out", h)
+			st.Fail(i, "barrier-call-failed", "a call on a healthy session went wrong: "+d.barrier+" "+p.barrier, h)
 		}
 		unchanged := sent1 == sent0
 		if !unchanged {
